@@ -90,6 +90,18 @@ pub fn shrink_history() -> Vec<History> {
             Put(0, 0), Flush, Del(0), Del(3), Reopen(1), Put(4, 4), Batch(vec![(0, true), (4, false)]), Reopen(0), Del(0),
         ],
     });
+    // 4500-byte keys: every version edit is ~9 kB, so the manifest passes the end of its first
+    // 32 KiB block and one edit is written as two fragments (two filesystem calls); a later manifest
+    // (after the reopen without reuse) starts with a snapshot record that is itself fragmented
+    v.push(History {
+        name: "cover-longkeys/T300->T300n".to_string(),
+        cfgs: cfgs(&["T300", "T300n"]),
+        keys: vec![vec![b'c'; 4500], vec![b'e'; 4500], vec![b'f'; 4500]],
+        ops: vec![
+            Put(0, 0), Flush, Put(1, 0), Flush, Put(2, 0), Flush, Put(0, 0), Flush, Put(1, 0), Flush, Del(2), Flush, Put(1, 0), Reopen(1), Put(2, 0), Flush, Put(0, 0),
+            Reopen(0), Put(1, 0),
+        ],
+    });
     // levels 1..=5 limited to 250 bytes: every flush sets off a cascade of size-triggered
     // compactions and trivial moves down to the last level (crash / fault inside the cascade)
     v.push(History {
@@ -99,6 +111,36 @@ pub fn shrink_history() -> Vec<History> {
         ops: vec![
             Put(0, 0), Flush, Put(1, 0), Flush, Put(2, 0), Flush, Put(3, 0), Flush, Put(0, 0), Flush, Put(1, 0), Flush, Del(2), Flush, Put(3, 0), Reopen(1),
             Put(0, 0), Flush, Del(1), Flush, Batch(vec![(2, true), (3, true)]), Flush, Put(1, 0), Reopen(0), Put(2, 0), Flush,
+        ],
+    });
+    v
+}
+
+/// Compactions whose inputs are opened lazily from a cold table cache (a reopen precedes them):
+/// one-entry blocks, outputs that close after every second entry, the newest version of the
+/// largest key as the very last merged entry; plus a multi-file level 1 over a multi-file level 2.
+pub fn compaction_input_histories() -> Vec<History> {
+    use Op::*;
+    let mut v = vec![];
+    for n in 2..=4usize {
+        let top: Vec<(u8, bool)> = (0..n as u8).map(|k| (k, true)).collect();
+        let last = (n - 1) as u8;
+        for over_older in [true, false] {
+            let bottom = if over_older { Batch(vec![(0, true), (last, true)]) } else { Put(0, 0) };
+            v.push(History {
+                name: format!("compaction-inputs-{}-{}/T1p", if over_older { "over-older" } else { "only" }, n),
+                cfgs: cfgs(&["T1p"]),
+                keys: vec![b"c".to_vec(), b"d".to_vec(), b"e".to_vec(), b"f".to_vec()],
+                ops: vec![bottom, Flush, Batch(top.clone()), Flush, Reopen(0), Put(0, 0), Compact(None, None), Reopen(0)],
+            });
+        }
+    }
+    v.push(History {
+        name: "compaction-inputs-multi-file-levels/T300".to_string(),
+        cfgs: cfgs(&["T300"]),
+        keys: k3(),
+        ops: vec![
+            Put(0, 0), Flush, Put(1, 0), Flush, Put(2, 0), Flush, Compact(None, None), Put(0, 0), Flush, Put(1, 0), Flush, Del(2), Flush, Reopen(0), Compact(None, None), Reopen(0),
         ],
     });
     v
@@ -475,7 +517,12 @@ pub fn c08(tier: &str) -> ! {
         run_faults(&mut rep, "generated<=5", generated_histories(&["T300"], 5), class::PROPERTY_SET, budget(tier, 40, 1500));
         run_faults(&mut rep, "generated<=3+all-classes", generated_histories(&["T300n", "M2", "L"], 3), class::ALL, budget(tier, 40, 900));
         run_faults(&mut rep, "covering+reads", covering_histories(&["T300", "T300n", "M2", "M2n"]).into_iter().chain(shrink_history()).collect(), class::ALL, budget(tier, 40, 1200));
+        // only the read side fails (opening and reading files), writes stay healthy: a compaction
+        // whose inputs cannot be read must not install a result that lacks their entries
+        run_faults(&mut rep, "read-side-faults", compaction_input_histories().into_iter().chain(covering_histories(&["T300", "T300n"])).collect(), class::READ | class::OPEN, budget(tier, 40, 600));
+        run_faults(&mut rep, "compaction-inputs+all-classes", compaction_input_histories(), class::ALL, budget(tier, 40, 600));
     } else {
+        run_faults(&mut rep, "read-side-faults", compaction_input_histories(), class::READ | class::OPEN, budget(tier, 15, 0));
         run_faults(&mut rep, "covering", covering_histories(&["T300", "T300n", "M2", "M2n"]).into_iter().chain(shrink_history()).collect(), class::PROPERTY_SET | class::LIST, budget(tier, 30, 0));
         run_faults(&mut rep, "covering+reads", covering_histories(&["M2"]), class::ALL, budget(tier, 15, 0));
         run_faults(&mut rep, "generated<=3", generated_histories(&["T300", "M2n"], 3), class::PROPERTY_SET, budget(tier, 25, 0));
